@@ -288,8 +288,100 @@ func runC10(c *core.Ctx) {
 	// ---------- C10.slice ----------
 	runC10Slice(c)
 
+	// ---------- C10.iternext ----------
+	runC10IterNext(c)
+
 	// ---------- C10.panics ----------
 	runC10Panics(c)
+}
+
+// runC10IterNext: MapIterator/ListIterator.Next on an exhausted iterator
+// returns nil nodes and an error; using the nodes then dereferences nil.
+func runC10IterNext(c *core.Ctx) {
+	p := c.P
+	c.Rule("C10.iternext", "every MapIterator/ListIterator Next() call in parser-side packages is guarded: it is dominated by the not-done edge of Done() on the same iterator, or by an edge implying Length() >= 1 of the node the iterator was made from, or its error result is nil-tested before any use of the returned nodes (an exhausted iterator yields nil nodes)", 15)
+	for _, fn := range p.ModFns {
+		pk := core.FuncPkg(fn)
+		if pk == nil || !parserSide(core.RelPkg(pk.Path())) || len(fn.Blocks) == 0 || fn.Synthetic != "" {
+			continue
+		}
+		n := 0
+		for _, ci := range core.Calls(fn) {
+			cv := core.CallValue(ci)
+			if cv == nil || !cv.Call.IsInvoke() || cv.Call.Method.Name() != "Next" {
+				continue
+			}
+			nt := namedOfType(cv.Call.Value.Type())
+			if nt == nil || (nt.Obj().Name() != "MapIterator" && nt.Obj().Name() != "ListIterator") {
+				continue
+			}
+			n++
+			itr := core.Strip(cv.Call.Value)
+			errIdx := cv.Type().(*types.Tuple).Len() - 1
+			guarded := ""
+			// (a) Done() == false on the same iterator
+			for e := range core.BoolEdgesWhere(fn, func(v ssa.Value) bool {
+				dc, ok := v.(*ssa.Call)
+				return ok && dc.Call.IsInvoke() && dc.Call.Method.Name() == "Done" && core.Strip(dc.Call.Value) == itr
+			}, false) {
+				if core.EdgeDominates(e, cv.Block()) {
+					guarded = "not-done edge of Done()"
+				}
+			}
+			// (c) Length() >= 1 of the source node
+			if guarded == "" {
+				if mk, ok := itr.(*ssa.Call); ok && mk.Call.IsInvoke() && (mk.Call.Method.Name() == "MapIterator" || mk.Call.Method.Name() == "ListIterator") {
+					src := core.Strip(mk.Call.Value)
+					for e := range core.EdgesWhere(fn, func(r core.Rel) bool {
+						lc, ok := r.X.(*ssa.Call)
+						if !ok || !lc.Call.IsInvoke() || lc.Call.Method.Name() != "Length" || core.Strip(lc.Call.Value) != src {
+							return false
+						}
+						lb, ok := r.LowerBoundConst()
+						return ok && constant.Sign(lb) > 0
+					}) {
+						if core.EdgeDominates(e, cv.Block()) {
+							guarded = "Length() >= 1 of the iterated node"
+						}
+					}
+				}
+			}
+			// (b) error tested before use of the nodes
+			if guarded == "" {
+				nilEdges := core.EdgesWhere(fn, func(r core.Rel) bool { return r.Op == token.EQL && extractOf(r.X, cv, errIdx) && core.IsNilConst(r.Y) })
+				usesOK := true
+				for _, ref := range *cv.Referrers() {
+					ex, ok := ref.(*ssa.Extract)
+					if !ok || ex.Index == errIdx {
+						continue
+					}
+					// only uses that dereference the node matter (a method call on it, or handing it to a call);
+					// forwarding it in a return next to the error is the wrapper idiom
+					if _, isNode := ex.Type().Underlying().(*types.Interface); !isNode {
+						continue
+					}
+					for _, use := range *ex.Referrers() {
+						if _, isCall := use.(ssa.CallInstruction); !isCall {
+							if _, isMI := use.(*ssa.MakeInterface); !isMI {
+								continue
+							}
+						}
+						if len(nilEdges) == 0 {
+							usesOK = false
+							continue
+						}
+						if _, reached := core.Reach(fn, cv, isTarget(use), nilEdges, nil); reached {
+							usesOK = false
+						}
+					}
+				}
+				if usesOK {
+					guarded = "error tested before the nodes are used"
+				}
+			}
+			c.Check(guarded != "", fmt.Sprintf("%s#next%d", core.FuncKey(fn), n), p.Pos(cv.Pos()), "guarded by "+guarded, "Next() is called without a Done()/Length() guard and its error is not tested before the returned nodes are used: on an empty or exhausted container the nodes are nil and the next method call on them panics")
+		}
+	}
 }
 
 // runC10Slice: digest-length fields of a CID prefix come from untrusted link
@@ -401,6 +493,10 @@ func chargedEdgesFor(tc *tokenConsumer, budget *ssa.Parameter, operandOK func(ss
 		if dec == nil || !operandOK(dec.Y) {
 			continue
 		}
+		// a charge computed by arithmetic on an unbounded header integer can wrap around (and even refund the budget)
+		if chargeMayOverflow(tc, dec.Y) {
+			continue
+		}
 		// the decrement must be positive-or-zero by construction: a constant >= 0, or a length/len-derived value
 		if cv := core.ConstVal(dec.Y); cv != nil && constant.Sign(cv) < 0 {
 			continue
@@ -466,6 +562,24 @@ func decoderLocal(p *core.Program, rel string) []*ssa.Function {
 		}
 	}
 	return out
+}
+
+// chargeMayOverflow: the operand multiplies, shifts or adds a value derived
+// from one of the token's untrusted 64-bit integer fields.
+func chargeMayOverflow(tc *tokenConsumer, y ssa.Value) bool {
+	for w := range core.BackSlice(y, core.SliceOpts{}) {
+		bo, ok := w.(*ssa.BinOp)
+		if !ok {
+			continue
+		}
+		switch bo.Op {
+		case token.MUL, token.SHL, token.ADD:
+			if tc.derivesFromField(bo.X, "Length", "Int", "Uint") || tc.derivesFromField(bo.Y, "Length", "Int", "Uint") {
+				return true
+			}
+		}
+	}
+	return false
 }
 
 // checkDepth decides the recursion-depth rule for one decoder package.
@@ -850,11 +964,11 @@ func runC10Alloc(c *core.Ctx) {
 // contractPanics is the frozen table of explicit panics in parser-local code
 // that are contract violations of the caller/node, one symbol + reason each.
 var contractPanics = map[string]string{
-	"traversal.asPathSegment":                          "map keys are string/int by data-model invariant; any other kind is a broken Node implementation",
-	"(traversal.Progress).get":                         "Kind_Invalid from a Node breaks the node contract",
-	"(datamodel.Kind).String":                          "a Kind outside the enumeration breaks the node contract",
-	"(*codec/dagjson.unmarshalState).step":             "shift is only ever set from constant look-ahead distances 0..6 (checked by this rule) and decremented",
-	"(traversal/selector.ExploreRecursive).Explore":    "RecursionLimit.mode is an unexported enum only ever stored from its two constants (checked by this rule)",
+	"traversal.asPathSegment":                       "map keys are string/int by data-model invariant; any other kind is a broken Node implementation",
+	"(traversal.Progress).get":                      "Kind_Invalid from a Node breaks the node contract",
+	"(datamodel.Kind).String":                       "a Kind outside the enumeration breaks the node contract",
+	"(*codec/dagjson.unmarshalState).step":          "shift is only ever set from constant look-ahead distances 0..6 (checked by this rule) and decremented",
+	"(traversal/selector.ExploreRecursive).Explore": "RecursionLimit.mode is an unexported enum only ever stored from its two constants (checked by this rule)",
 }
 
 func runC10Panics(c *core.Ctx) {
